@@ -249,6 +249,7 @@ type world struct {
 	created []string // ids of modes created with a generated id, in order of creation
 	nUpd    atomic.Int64
 	nSet    atomic.Int64
+	nChg    atomic.Int64
 	nDel    atomic.Int64
 	// futureStamps: a third of the start times given to SetActiveMode lie after every reading of the model clock
 	// (a schedule entered ahead of time); only used with the manual clock of the sequential part
@@ -398,10 +399,19 @@ func (w *world) exec(o op, id string) (out outcome) {
 			switch o.Door {
 			case "model":
 				out.Mode, out.Err = w.m.ChangeActiveMode(id)
-			case "server":
-				out.Mode, out.Err = w.srv.UpdateActiveMode(ctx, &traits.UpdateActiveModeRequest{Name: devName, ActiveMode: &traits.ElectricMode{Id: id}})
-			case "client":
-				out.Mode, out.Err = w.api.UpdateActiveMode(ctx, &traits.UpdateActiveModeRequest{Name: devName, ActiveMode: &traits.ElectricMode{Id: id}})
+			case "server", "client":
+				// a client that read the active mode, changed the id and sent the message back: every third request
+				// carries a title and a (stale) start time of its own; the switch is stamped by the model clock all the same
+				req := &traits.UpdateActiveModeRequest{Name: devName, ActiveMode: &traits.ElectricMode{Id: id}}
+				if n := w.nChg.Add(1); n%3 == 0 {
+					req.ActiveMode.Title = "stale"
+					req.ActiveMode.StartTime = timestamppb.New(setStampBase.Add(time.Duration(5000000+n) * time.Second))
+				}
+				if o.Door == "server" {
+					out.Mode, out.Err = w.srv.UpdateActiveMode(ctx, req)
+				} else {
+					out.Mode, out.Err = w.api.UpdateActiveMode(ctx, req)
+				}
 			}
 		case "clear-active":
 			switch o.Door {
